@@ -1,4 +1,4 @@
-import RsslVerif.Lemmas.Elab
+import RsslVerif.Lemmas.ElabExact
 import RsslVerif.Thm.C16
 /-!
 # C03 — accepted programs elaborate to well-typed IR; ill-typed programs are rejected
@@ -11,6 +11,7 @@ All are universally quantified: any environment, any expression nesting, any typ
 namespace RsslVerif.Thm.C03
 open RsslVerif.Gen.RankTable RsslVerif.Gen.TypingTables RsslVerif.Model.Conv RsslVerif.Model.Overload
 open RsslVerif.Model.IrTyping RsslVerif.Model.Elab RsslVerif.Lemmas.ElabConv RsslVerif.Lemmas.Elab
+open RsslVerif.Lemmas.ElabForms RsslVerif.Lemmas.ElabExact
 
 /-! ## `ImplicitConversion::find` -/
 
@@ -393,5 +394,183 @@ theorem binary_operands_equal {Γ : Env} {o : IOp} {a b : IExpr} {τ : ETy} (ho 
 theorem binop_rules (b : BinOp) (i : IOp) (h : b.toIOp = some i) :
     i.rule.sameTypes = true ∧ i.rule.arity = some 2 ∧ (b.cls = .assign → i.rule.lhsLvalue = true) := by
   cases b <;> simp [BinOp.toIOp] at h <;> subst h <;> decide
+
+/-! ## exactness: what accepted assignments, operators and calls look like -/
+
+/-- **Accepted assignments.**  An accepted `a op= b` elaborates to an assignment-family operator whose left operand
+    is a non-const lvalue and whose right operand has exactly the type of the left one (the conversion is explicit);
+    the result is the left operand's type. -/
+theorem elab_assign_exact {Γ : Env} {o : BinOp} {a b : SExpr} {e' : IExpr} {τ : ETy} (ho : o.cls = .assign)
+    (h : elabE true Γ (.bin o a b) = .ok (e', τ)) :
+    ∃ i a' b' ta tb, e' = .op i (.cons a' (.cons b' .nil)) ∧ HasType Γ a' ta ∧ HasType Γ b' tb ∧
+      ta.ty = tb.ty ∧ ta.vt = .lvalue ∧ ta.ty.mod.isConst = false ∧ τ = ta := by
+  have hs := elab_sound h
+  simp only [elabE] at h
+  split at h
+  · simp at h
+  · rename_i a1 τa ha
+    have iha := elab_sound ha
+    split at h
+    · simp at h
+    · rename_i b1 τb hb
+      simp only [ho] at h
+      split at h
+      · simp at h
+      · rename_i n τn hn
+        obtain ⟨rfl, rfl⟩ := selfCheck_type h
+        unfold elabAssign at hn
+        split at hn
+        · simp at hn
+        · rename_i hconst
+          split at hn
+          · simp at hn
+          · split at hn
+            · simp at hn
+            · simp at hn
+            · split at hn
+              · simp at hn
+              · rename_i i hi
+                split at hn
+                · simp at hn
+                · rename_i out hout
+                  simp only [Except.ok.injEq, Prod.mk.injEq] at hn
+                  obtain ⟨rfl, rfl⟩ := hn
+                  obtain ⟨_, _, hl⟩ := binop_rules o i hi
+                  obtain ⟨hsame, _, _⟩ := binop_rules o i hi
+                  obtain ⟨ta, tb, h1, h2, h3, h4⟩ := assignment_operands ⟨hl ho, hsame⟩ hs
+                  have hta : ta = τa := by
+                    have e1 := typeOf_of_hasType _ _ h1
+                    have e2 := typeOf_of_hasType _ _ iha
+                    rw [e1] at e2; simpa using e2
+                  subst hta
+                  refine ⟨i, _, _, ta, tb, rfl, h1, h2, h3, h4, by simpa using hconst, ?_⟩
+                  -- the result type is the left operand's type
+                  have := typeOf_of_hasType _ _ hs
+                  cases hs with
+                  | op hargs hret =>
+                    cases hargs with
+                    | cons ha' hr =>
+                      cases hr with
+                      | cons hb' hn' =>
+                        cases hn'
+                        have e1 := typeOf_of_hasType _ _ ha'
+                        have e2 := typeOf_of_hasType _ _ h1
+                        rw [e1] at e2
+                        simp at e2; subst e2
+                        have hres : i.rule.result = .arg0 := by
+                          cases o <;> simp [BinOp.cls] at ho <;> simp [BinOp.toIOp] at hi <;> subst hi <;> rfl
+                        simp only [opReturn, hres] at hret
+                        repeat' split at hret
+                        all_goals (first | (simp at hret; done) | (simp at hret; exact hret.symm))
+
+/-- **Accepted arithmetic / comparison / bit / logical operators** receive two operands of exactly the same type -/
+theorem elab_arith_exact {Γ : Env} {o : BinOp} {a b : SExpr} {e' : IExpr} {τ : ETy} (ho : o.cls = .arith)
+    (h : elabE true Γ (.bin o a b) = .ok (e', τ)) :
+    ∃ i a' b' ta tb, e' = .op i (.cons a' (.cons b' .nil)) ∧ HasType Γ a' ta ∧ HasType Γ b' tb ∧ ta.ty = tb.ty := by
+  have hs := elab_sound h
+  simp only [elabE] at h
+  split at h
+  · simp at h
+  · split at h
+    · simp at h
+    · simp only [ho] at h
+      split at h
+      · simp at h
+      · rename_i n τn hn
+        obtain ⟨rfl, rfl⟩ := selfCheck_type h
+        unfold elabArith at hn
+        repeat' split at hn
+        all_goals (first | (simp at hn; done) | skip)
+        all_goals (
+          unfold arithBuild at hn
+          repeat' split at hn)
+        all_goals (first | (simp at hn; done) | skip)
+        all_goals (
+          simp only [Except.ok.injEq, Prod.mk.injEq] at hn
+          obtain ⟨rfl, rfl⟩ := hn
+          rename_i i hi _ _ _
+          obtain ⟨hsame, _, _⟩ := binop_rules o i hi
+          obtain ⟨ta, tb, h1, h2, h3⟩ := binary_operands_equal hsame hs
+          exact ⟨i, _, _, ta, tb, rfl, h1, h2, h3⟩)
+
+/-- **Accepted calls.**  The callee exists, the result has its return type, and every argument expression has
+    exactly the type of its parameter — no implicit conversion remains (signature parameter types carry no modifier:
+    `parse_function_signature` strips them). -/
+theorem elab_call_args_exact {Γ : Env} {name : Nat} {args : SArgs} {e' : IExpr} {τ : ETy}
+    (hp : ∀ s ∈ Γ.funcs, ∀ p ∈ s.params, p.ty.mod = {})
+    (h : elabE true Γ (.call name args) = .ok (e', τ)) :
+    ∃ id s as' us, e' = .call id as' ∧ Γ.funcs[id]? = some s ∧ τ = s.ret.r ∧ HasArgs Γ as' us ∧
+      ArgsMatch us s.params := by
+  simp only [elabE] at h
+  split at h
+  · simp at h
+  · split at h
+    · simp at h
+    · rename_i as1 ts ha
+      have iha := elabArgs_sound_aux args as1 ts ha
+      split at h
+      · simp at h
+      · rename_i n τn hn
+        obtain ⟨rfl, rfl⟩ := selfCheck_type h
+        unfold elabCall at hn
+        repeat' split at hn
+        all_goals (first | (simp at hn; done) | skip)
+        all_goals (
+          simp only [Except.ok.injEq, Prod.mk.injEq] at hn
+          obtain ⟨rfl, rfl⟩ := hn
+          rename_i id _ _ s hs _ as'' hca
+          have hmem : s ∈ Γ.funcs := List.mem_of_getElem? hs
+          obtain ⟨us, h1, h2⟩ := castArgs_exact s.params as1 ts as'' (hp s hmem) iha hca
+          exact ⟨id, s, as'', us, rfl, hs, rfl, h1, h2⟩)
+
+/-- writes to the source forms the property lists (literal, `a + b`, function result, and casts, `?:`, `a++`, `-a`, ...)
+    are never accepted -/
+theorem elab_rejects_assign_to_rvalue_form {Γ : Env} {dbg : Bool} {o : BinOp} {a b : SExpr} (ho : o.cls = .assign)
+    (hf : isRvalueForm a = true) : ∀ r, elabE dbg Γ (.bin o a b) ≠ .ok r := by
+  intro r h
+  cases ha : elabE dbg Γ a with
+  | error m => simp [elabE, ha] at h
+  | ok p =>
+    obtain ⟨a', τa⟩ := p
+    exact elab_rejects_assign_to_rvalue ho ha (rvalue_forms hf ha) r h
+
+/-- `++` / `--` on the same forms are never accepted -/
+theorem elab_rejects_increment_of_rvalue_form {Γ : Env} {dbg : Bool} {o : UnOp} {e : SExpr}
+    (ho : o = .prefixIncrement ∨ o = .prefixDecrement ∨ o = .postfixIncrement ∨ o = .postfixDecrement)
+    (hf : isRvalueForm e = true) : ∀ r, elabE dbg Γ (.un o e) ≠ .ok r := by
+  intro r h
+  cases he : elabE dbg Γ e with
+  | error m => simp [elabE, he] at h
+  | ok p =>
+    obtain ⟨e', τ⟩ := p
+    exact elab_rejects_increment ho he (Or.inl (rvalue_forms hf he)) r h
+
+/-! ## where the statements stop: witnesses replayed on the implementation -/
+
+/-- **An rvalue reaches an `out` parameter.**  `void f0(out int); int1 v0; f0(v0)` is accepted and elaborates to
+    `f0(Cast(int, v0))`: `find` allows `int1 → int` towards an lvalue, `apply` turns it into a cast.  (So
+    `elab_call_args_exact` cannot be strengthened to "lvalue arguments for out parameters".) -/
+theorem out_arg_receives_cast :
+    (match elabE true { vars := [⟨{}, .vector .int32 1⟩],
+                        funcs := [⟨0, [⟨⟨{}, .scalar .int32⟩, .out⟩], 1, ⟨{}, .scalar .int32⟩⟩] }
+        (.call 0 (.cons (.var 0) .nil)) with
+     | .ok (.call 0 (.cons (.cast _ (.var 0)) .nil), _) => true
+     | _ => false) = true := by decide
+
+/-- **Release builds accept an ill-typed sub-expression.**  With `volatile int v0`, `(int)(v0 = 1)` is accepted when the
+    per-node check of debug builds is off, although the assignment inside has operands of different types
+    (`volatile int` and `int`) and therefore no type under the IR's rules.  (Debug builds panic instead:
+    `elab_sound` needs the check.) -/
+theorem release_accepts_ill_typed :
+    ∃ (Γ : Env) (e : SExpr) (e' : IExpr) (τ : ETy), elabTop false Γ e = .ok (e', τ) ∧ ¬ HasType Γ e' τ := by
+  refine ⟨{ vars := [⟨{ volatile := true }, .scalar .int32⟩], funcs := [] },
+    .cast ⟨{}, .scalar .int32⟩ (.bin .assignment (.var 0) (.lit .intLiteral)),
+    .cast ⟨{}, .scalar .int32⟩ (.op .assignment (.cons (.var 0) (.cons (.lit .int32) .nil))),
+    ⟨⟨{}, .scalar .int32⟩, .rvalue⟩, by rfl, ?_⟩
+  intro h
+  cases h with
+  | cast he =>
+    have := typeOf_of_hasType _ _ he
+    simp [typeOf, typesOf, opReturn, IOp.rule, scalarTy, Ty.r, Ty.l] at this
 
 end RsslVerif.Thm.C03
